@@ -19,6 +19,9 @@ from vlib import AnchorLost, find_code, match_brace, extract_fn
 from units import vmat
 
 PATH = "src/interpreter/src/stdlib/table_ops.rs"
+JOIN_LOCALS = ['out_rows', 'rhs_matched', 'lhs_row', 'matched_rhs', 'rhs_row', 'row', 'lhs_id', 'rhs_id', 'l', 'value', 'col']
+RM_LOCALS = ['lhs_col', 'rhs_col', 'lhs_val', 'col', 'rhs_val']
+TABLE_LOCALS = {"TableAccessRangeIndex": ['table', 'out_table', 'ix_brrw', '_out_kind', 'out_matrix', 'out_i', 'i', 'value'], "TableAccessRangeBool": ['table', 'ix_brrw', 'true_count', 'b', 'out_table', '_out_kind', 'out_matrix', 'push_index', 'i', 'flag', 'value']}
 
 
 def _model():
@@ -63,11 +66,12 @@ def skeleton(text):
         raise AnchorLost("impl TableJoinFxn not found")
     blk = text[m.start():match_brace(text, m.end() - 1)]
     sig, body = extract_fn(blk, "build_joined_table")
-    a = find_code(body, r"let\s+mut\s+out_rows\s*:")
+    a = find_code(body, r"let\s+mut\s+\w+\s*:\s*Vec<HashMap<u64,\s*Value>>\s*=\s*vec!\[\]\s*;")
     z = find_code(body, r"let\s+mut\s+data\s*:\s*IndexMap")
     if not a or not z or z.start() < a.start():
         raise AnchorLost("build_joined_table: `let mut out_rows` .. `let mut data: IndexMap` not found")
     b = re.sub(r"//[^\n]*", "", body[a.start():z.start()]).replace("\r", "")
+    b = vlib.canon_bindings(sig, b, ["lhs", "rhs", "mode"], JOIN_LOCALS)
     # J1
     b, n1 = re.subn(r"let\s+mut\s+out_rows\s*:\s*Vec<HashMap<u64,\s*Value>>\s*=\s*vec!\[\]\s*;", "let mut out_rows: Vec<Row> = Vec::new();", b)
     b, n2 = re.subn(r"let\s+mut\s+rhs_matched\s*:\s*Vec<bool>\s*=\s*vec!\[false;\s*rhs\.rows\]\s*;", "let mut rhs_matched: Vec<bool> = vec_false(rhs_rows);", b)
@@ -200,6 +204,7 @@ def table_solve(text, struct):
     blk = text[m.start():match_brace(text, m.end() - 1)]
     sig, body = extract_fn(blk, "solve")
     b = re.sub(r"//[^\n]*", "", body).replace("\r", "").strip()[1:-1]
+    b = vlib.canon_bindings(sig, b, ["self"], TABLE_LOCALS[struct])
     n = 0
     for pat in (r"let\s+table\s*=\s*self\.source\.borrow\(\)\s*;", r"let\s+mut\s+out_table\s*=\s*self\.out\.borrow_mut\(\)\s*;", r"let\s+ix_brrw\s*=\s*self\.ix\.borrow\(\)\s*;"):
         b, k = re.subn(pat, "", b)
@@ -290,6 +295,7 @@ def rows_match_fn(text):
     `t.data.get(c).map(|(_, col)| col.index1d(r))` -> `cell(t, c, r)`, `x == y` on the two optional cells -> `opt_eq(x, y)`."""
     sig, body = extract_fn(text, "rows_match")
     b = re.sub(r"//[^\n]*", "", body).replace("\r", "").strip()[1:-1].strip()
+    b = vlib.canon_bindings(sig, b, ["lhs", "lhs_row", "rhs", "rhs_row", "common_cols"], RM_LOCALS)
     m = re.match(r"(\w+)\.iter\(\)\.(all|any)\(\|\((\w+),\s*(\w+)\)\|\s*\{", b)
     if not m:
         raise AnchorLost("rows_match: expected `common_cols.iter().all(|(lhs_col, rhs_col)| { .. })`")
